@@ -306,6 +306,9 @@ class EnumGen:
             for i, (n, t) in enumerate(zip(v.fnames, v.ftypes)):
                 dw = v.fdw[i] if i < len(v.fdw) else None
                 a = '#[strum(default_with = %s)] ' % rust_str(dw) if dw else ''
+                fa = self.e.extra.get('field_attrs', {}).get('%s.%d' % (v.ident, i))
+                if fa:
+                    a = (fa + ' ' + a) if (len(v.ident) + i) % 2 else (a + fa + ' ')
                 fs.append('%s%s: %s' % (a, n, field_ty(t)))
             body = '%s { %s }' % (v.ident, ', '.join(fs))
         if v.discr is not None or v.discr_expr is not None:
@@ -632,6 +635,8 @@ class EnumGen:
                '}',
                'fn _assert_send_sync<X: Send + Sync>() {}',
                'fn _assert_iter_traits<X: Iterator<Item = Inst> + core::iter::FusedIterator + ExactSizeIterator + DoubleEndedIterator + Clone + core::fmt::Debug>() {}',
+               'fn _iter_bounds_via_trait<E: %s::IntoEnumIterator>() { _assert_iter_bounds::<E, <E as %s::IntoEnumIterator>::Iterator>(); }' % (sp, sp),
+               'fn _assert_iter_bounds<E, X: Iterator<Item = E> + core::iter::FusedIterator + ExactSizeIterator + DoubleEndedIterator + Clone>() {}',
                'fn _iter_is_send_sync() {',
                '    _assert_iter_traits::<<Inst as %s::IntoEnumIterator>::Iterator>();' % sp,
                '    _assert_send_sync::<<Inst as %s::IntoEnumIterator>::Iterator>();' % sp]
